@@ -14,6 +14,7 @@ import (
 	historypb "go.temporal.io/api/history/v1"
 	_ "go.temporal.io/api/workflowservice/v1"
 	_ "go.temporal.io/server/api/adminservice/v1"
+	"google.golang.org/protobuf/encoding/protojson"
 	"google.golang.org/protobuf/proto"
 	"google.golang.org/protobuf/reflect/protoreflect"
 	"google.golang.org/protobuf/reflect/protoregistry"
@@ -296,6 +297,13 @@ func EncodeEvents(events []*historypb.HistoryEvent) *commonpb.DataBlob {
 func DecodeEvents(blob *commonpb.DataBlob) ([]*historypb.HistoryEvent, error) {
 	if blob == nil || len(blob.Data) == 0 {
 		return nil, nil
+	}
+	if blob.EncodingType == enumspb.ENCODING_TYPE_JSON {
+		var h historypb.History
+		if err := protojson.Unmarshal(blob.Data, &h); err != nil {
+			return nil, err
+		}
+		return h.Events, nil
 	}
 	if blob.EncodingType != enumspb.ENCODING_TYPE_PROTO3 {
 		return nil, fmt.Errorf("encoding %v not decoded by the reference", blob.EncodingType)
@@ -592,6 +600,7 @@ func normalizeBlobs(m protoreflect.Message) {
 					normalizeBlobs(ev.ProtoReflect())
 				}
 				blob.Data = EncodeEvents(events).Data
+				blob.EncodingType = enumspb.ENCODING_TYPE_PROTO3
 			}
 			if fd.IsList() {
 				l := v.List()
@@ -749,6 +758,7 @@ func FillEmptyNamespaces(m protoreflect.Message, v string) {
 					FillEmptyNamespaces(ev.ProtoReflect(), v)
 				}
 				blob.Data = EncodeEvents(evs).Data
+				blob.EncodingType = enumspb.ENCODING_TYPE_PROTO3
 			}
 			if fd.IsList() {
 				for j := 0; j < val.List().Len(); j++ {
@@ -798,4 +808,62 @@ func DuplicateListBlobs(m protoreflect.Message) {
 		}
 		return true
 	})
+}
+
+// ReencodeBlobsAsJSON rewrites every (proto3) event blob of m in Temporal's other supported encoding, JSON.
+func ReencodeBlobsAsJSON(m protoreflect.Message) int {
+	n := 0
+	var walk func(m protoreflect.Message)
+	walk = func(m protoreflect.Message) {
+		m.Range(func(fd protoreflect.FieldDescriptor, v protoreflect.Value) bool {
+			if fd.IsMap() {
+				if fd.MapValue().Message() != nil {
+					v.Map().Range(func(_ protoreflect.MapKey, mv protoreflect.Value) bool { walk(mv.Message()); return true })
+				}
+				return true
+			}
+			if fd.Message() == nil {
+				return true
+			}
+			if fd.Message().FullName() == dataBlobName {
+				if !EventBlobFields[string(fd.FullName())] {
+					return true
+				}
+				re := func(bm protoreflect.Message) {
+					blob := bm.Interface().(*commonpb.DataBlob)
+					if blob.EncodingType != enumspb.ENCODING_TYPE_PROTO3 {
+						return
+					}
+					evs, err := DecodeEvents(blob)
+					if err != nil || len(evs) == 0 {
+						return
+					}
+					b, err := protojson.Marshal(&historypb.History{Events: evs})
+					if err != nil {
+						return
+					}
+					blob.Data, blob.EncodingType = b, enumspb.ENCODING_TYPE_JSON
+					n++
+				}
+				if fd.IsList() {
+					for i := 0; i < v.List().Len(); i++ {
+						re(v.List().Get(i).Message())
+					}
+				} else {
+					re(v.Message())
+				}
+				return true
+			}
+			if fd.IsList() {
+				for i := 0; i < v.List().Len(); i++ {
+					walk(v.List().Get(i).Message())
+				}
+			} else {
+				walk(v.Message())
+			}
+			return true
+		})
+	}
+	walk(m)
+	return n
 }
